@@ -161,7 +161,7 @@ def build_world(w, inp, inodes=None, order=None, omit_v6=False, extra_pids=()):
         w.procs[pid].fds = dict(sorted(w.procs[pid].fds.items()))
     # every other holder closes its pipe (descriptor 1) between the listing of its descriptors and
     # the look at that one: the name is listed, readlink() answers ENOENT -- its sockets stay where they are
-    closing = {"/proc/%d/fd/1" % pid for pid in pids if pid % 2}
+    closing = {"/proc/%d/fd/1" % pid for pid in pids if pid % 2 and w.procs[pid].fds[1].kind == "pipe"}
     if not hasattr(w, "_c11_readlink"):
         w._c11_readlink = w.sys_readlink
 
